@@ -165,6 +165,12 @@ fn ret(name: u32) {
     shim::mark("ret", Obj::User(name), None, None);
 }
 
+/// H_C09_MUTATE: deliberately wrong harness behaviour, to see the oracle fire (never set by the check).
+fn mutation() -> &'static str {
+    static M: std::sync::OnceLock<String> = std::sync::OnceLock::new();
+    M.get_or_init(|| std::env::var("H_C09_MUTATE").unwrap_or_default()).as_str()
+}
+
 /// One page, page-aligned, reused by every run: the "heap" in which the mutex and the condition object
 /// live (fixed offsets, so that the low address bits — the table's hash — are the same in every run).
 fn arena() -> usize {
@@ -183,6 +189,8 @@ pub struct Shared {
     stop_done: Vec<AtomicBool>,
     gcs: AtomicUsize,
     gcs_skipped: AtomicUsize,
+    /// collections that found at least one key in the wait table (somebody was queued)
+    gcs_with_roots: AtomicUsize,
     roles: StdMutex<HashMap<Obj, String>>,
     ids_w_cw: StdMutex<(u32, u32)>,
     final_queue: StdMutex<Option<(usize, Vec<(bool, bool)>)>>,
@@ -414,7 +422,15 @@ impl World {
         }
         // roots 2: the wait table (gc/root.rs: iterate_roots_from_wait_list)
         let sh = self.sh.clone();
+        let mut roots = 0usize;
+        if mutation() == "skip-roots" {
+            // self-test of the oracle only (H_C09_MUTATE=skip-roots): a collector that forgets the wait table
+            self.rt.verif_bump_epoch();
+            ret(M_GC);
+            return;
+        }
         self.rt.wait_lists.visit_roots(|slot| {
+            roots += 1;
             let old = slot.get();
             if old == old_m {
                 slot.relocate(new_m);
@@ -424,6 +440,9 @@ impl World {
                 sh.violation("oracle:unknown-root", "the wait table handed out a root that is neither the mutex nor the condition".to_string());
             }
         });
+        if roots > 0 {
+            self.sh.gcs_with_roots.fetch_add(1, O::SeqCst);
+        }
         self.rt.verif_bump_epoch();
         ret(M_GC);
     }
@@ -523,13 +542,15 @@ struct SpinDfs {
     next_prefix: Option<Vec<usize>>,
     last_prefix: Vec<usize>,
     points: Arc<StdMutex<Vec<(usize, usize)>>>,
+    /// the first `pinned` choices are given and never varied (explore only below that prefix)
+    pinned: usize,
     divergences: usize,
     done: bool,
 }
 
 impl SpinDfs {
-    fn new(bound: usize) -> SpinDfs {
-        SpinDfs { bound, next_prefix: Some(Vec::new()), last_prefix: Vec::new(), points: Arc::new(StdMutex::new(Vec::new())), divergences: 0, done: false }
+    fn new(bound: usize, prefix: Vec<usize>) -> SpinDfs {
+        SpinDfs { bound, pinned: prefix.len(), next_prefix: Some(prefix), last_prefix: Vec::new(), points: Arc::new(StdMutex::new(Vec::new())), divergences: 0, done: false }
     }
 
     fn next(&mut self) -> Option<Box<dyn Chooser>> {
@@ -558,7 +579,7 @@ impl SpinDfs {
             pre.push(acc);
             acc += c.opts[c.chosen].cost as usize;
         }
-        for i in (0..trail.len()).rev() {
+        for i in (self.pinned.min(trail.len())..trail.len()).rev() {
             let c = &trail[i];
             for alt in (c.chosen + 1)..c.opts.len() {
                 if let Some(&coll) = excluded.get(&i) {
@@ -594,6 +615,7 @@ pub struct Feats {
     join_wait: bool,
     spurious: bool,
     reloc: bool,
+    reloc_queued: bool,
     unknown_objs: usize,
 }
 
@@ -621,6 +643,7 @@ pub fn run_one(sc: &Arc<Scenario>, spur: usize, chooser: Box<dyn Chooser>) -> Ou
         stop_done: (0..n).map(|_| AtomicBool::new(false)).collect(),
         gcs: AtomicUsize::new(0),
         gcs_skipped: AtomicUsize::new(0),
+        gcs_with_roots: AtomicUsize::new(0),
         roles: StdMutex::new(HashMap::new()),
         ids_w_cw: StdMutex::new((0, 0)),
         final_queue: StdMutex::new(None),
@@ -746,6 +769,7 @@ pub fn run_one(sc: &Arc<Scenario>, spur: usize, chooser: Box<dyn Chooser>) -> Ou
         toks.push(format!("{},{},{},{},{}", w, op, r, rds, num(*wr)));
     }
     feats.events = steps;
+    feats.reloc_queued = sh.gcs_with_roots.load(O::SeqCst) > 0;
     let request = format!("mtx {} | {}", n, toks.join(" "));
     let (id_w, id_cw) = *sh.ids_w_cw.lock().unwrap();
     let at = |i: u32| res.atomics.get(i as usize).map(|&v| v as i64).unwrap_or(-1);
@@ -929,6 +953,7 @@ impl Sink {
             (f.join_wait, "traces_with_join_wait"),
             (f.spurious, "traces_with_spurious"),
             (f.reloc, "traces_reloc"),
+            (f.reloc_queued, "traces_reloc_with_nonempty_wait_table"),
             (f.cb_waits > 0, "traces_with_sleep_in_block"),
             (f.unknown_objs > 0, "traces_with_unknown_objects"),
             (o.res.status != Status::Completed, "traces_not_completed"),
@@ -948,48 +973,51 @@ impl Sink {
     }
 }
 
-/// (scenario, preemption bound, spurious budget, cap on DFS runs)
-fn scenarios(tier: &str) -> Vec<(&'static str, usize, usize, usize)> {
-    let quick: Vec<(&'static str, usize, usize, usize)> = vec![
-        ("2/k/k", 2, 0, 3000),
-        ("2/k.k/k", 2, 0, 3000),
-        ("2/w0/s0", 2, 0, 3000),
-        ("2/w0/s0", 2, 1, 2500),
-        ("2/w0/S0", 2, 0, 3000),
-        ("2/w0/o0", 2, 0, 3000),
-        ("2/j1/k", 2, 0, 2000),
-        ("2/j1/k", 2, 1, 2000),
-        ("2/w0.j1/n.s0", 2, 0, 3000),
-        ("3/k/k/k", 2, 0, 2500),
-        ("3/w0/w0/s0", 1, 0, 2500),
-        ("3/w0/w0/S0", 2, 0, 2500),
-        ("3/w0/k/o0", 1, 0, 2500),
-        ("3/j1.j2/s0/w0", 1, 0, 2000),
-        ("3/w0/N.k/S0", 1, 1, 2000),
-        ("reloc:2/w0/g.s0", 2, 0, 1500),
-        ("reloc:3/w0/w0/g.s0", 1, 0, 2000),
-        ("reloc:3/k/k/L.g.U", 1, 0, 2000),
-        ("reloc:3/w0/k/k.g.S0", 1, 0, 2000),
+/// (scenario, preemption bound, spurious budget, cap on DFS runs, pinned choice prefix or "-")
+/// A pinned prefix `2` in a 3-worker scenario = the collector (worker 2) runs first; the DFS explores below it.
+fn scenarios(tier: &str) -> Vec<(&'static str, usize, usize, usize, &'static str)> {
+    let quick: Vec<(&'static str, usize, usize, usize, &'static str)> = vec![
+        ("2/k/k", 2, 0, 2500, "-"),
+        ("2/k.k/k", 2, 0, 2500, "-"),
+        ("2/w0/s0", 2, 0, 2500, "-"),
+        ("2/w0/s0", 2, 1, 2500, "-"),
+        ("2/w0/S0", 2, 0, 2500, "-"),
+        ("2/w0/o0", 2, 0, 2500, "-"),
+        ("2/j1/k", 2, 0, 2000, "-"),
+        ("2/j1/k", 2, 1, 2000, "-"),
+        ("2/w0.j1/n.s0", 2, 0, 2500, "-"),
+        ("3/k/k/k", 2, 0, 2500, "-"),
+        ("3/w0/w0/s0", 1, 0, 2500, "-"),
+        ("3/w0/w0/S0", 2, 0, 2500, "-"),
+        ("3/w0/k/o0", 1, 0, 2500, "-"),
+        ("3/j1.j2/s0/w0", 1, 0, 2000, "-"),
+        ("3/w0/N.k/S0", 1, 1, 2000, "-"),
+        ("reloc:2/w0/g.s0", 2, 0, 1500, "-"),
+        ("reloc:3/w0/w0/g.s0", 1, 0, 2000, "-"),
+        ("reloc:2/k/L.g.U", 2, 0, 1500, "1"),
+        ("reloc:3/k/k/L.g.U", 1, 0, 2000, "2"),
+        ("reloc:3/w0/k/L.g.U.S0", 1, 0, 2000, "2"),
     ];
     if tier == "quick" {
         return quick;
     }
-    let mut v: Vec<(&'static str, usize, usize, usize)> = quick.iter().map(|&(s, b, sp, c)| (s, b, sp, c * 10)).collect();
+    let mut v: Vec<(&'static str, usize, usize, usize, &'static str)> = quick.iter().map(|&(s, b, sp, c, p)| (s, b, sp, c * 10, p)).collect();
     v.extend(vec![
-        ("2/k.k/k.k", 3, 0, 40000),
-        ("2/w0/s0", 4, 1, 40000),
-        ("2/w0.w1/s0.S1", 3, 0, 40000),
-        ("2/s1.w0/s0.w1", 3, 0, 40000),
-        ("3/k/k/k", 3, 0, 40000),
-        ("3/w0/w0/s0", 2, 1, 40000),
-        ("3/w0/w1/s0.S1", 2, 0, 40000),
-        ("3/w0.j2/n.k.j2/s0", 2, 0, 40000),
-        ("4/w0/w0/w0/s0", 1, 0, 40000),
-        ("4/k/k/k/k", 2, 0, 40000),
-        ("4/j1/j2/j3/k", 2, 1, 40000),
-        ("reloc:3/w0/w0/g.s0.g", 2, 0, 40000),
-        ("reloc:4/k/k/k/L.g.U.g", 2, 0, 40000),
-        ("reloc:4/w0/w0/k/g.S0", 1, 1, 40000),
+        ("2/k.k/k.k", 3, 0, 40000, "-"),
+        ("2/w0/s0", 4, 1, 40000, "-"),
+        ("2/w0.w1/s0.S1", 3, 0, 40000, "-"),
+        ("2/s1.w0/s0.w1", 3, 0, 40000, "-"),
+        ("3/k/k/k", 3, 0, 40000, "-"),
+        ("3/w0/w0/s0", 2, 1, 40000, "-"),
+        ("3/w0/w1/s0.S1", 2, 0, 40000, "-"),
+        ("3/w0.j2/n.k.j2/s0", 2, 0, 40000, "-"),
+        ("4/w0/w0/w0/s0", 1, 0, 40000, "-"),
+        ("4/k/k/k/k", 2, 0, 40000, "-"),
+        ("4/j1/j2/j3/k", 2, 1, 40000, "-"),
+        ("reloc:3/w0/w0/g.s0.g", 2, 0, 40000, "-"),
+        ("reloc:4/k/k/k/L.g.U.g", 2, 0, 40000, "3"),
+        ("reloc:4/w0/w0/k/g.S0", 1, 1, 40000, "-"),
+        ("reloc:3/k.k/k/L.g.U.g.k", 2, 0, 40000, "2"),
     ]);
     v
 }
@@ -1176,9 +1204,9 @@ pub fn run(args: &[String]) {
     }
     // 2. bounded DFS per built-in scenario
     let mut dfs_info = Vec::new();
-    for (txt, bound, spur, cap) in scenarios(&tier) {
+    for (txt, bound, spur, cap, prefix) in scenarios(&tier) {
         let sc = Arc::new(Scenario::parse(txt).expect("built-in scenario"));
-        let mut dfs = SpinDfs::new(bound);
+        let mut dfs = SpinDfs::new(bound, parse_choices(prefix));
         let mut runs = 0usize;
         while let Some(ch) = dfs.next() {
             let o = run_one(&sc, spur, ch);
@@ -1193,10 +1221,11 @@ pub fn run(args: &[String]) {
             sink.bump("dfs_replay_divergences", dfs.divergences);
         }
         dfs_info.push(format!(
-            "{{\"scenario\":{},\"preemption_bound\":{},\"spurious_budget\":{},\"schedules\":{},\"exhaustive\":{}}}",
+            "{{\"scenario\":{},\"preemption_bound\":{},\"spurious_budget\":{},\"pinned_prefix\":{},\"schedules\":{},\"exhaustive\":{}}}",
             jstr(txt),
             bound,
             spur,
+            jstr(prefix),
             runs,
             dfs.exhausted()
         ));
